@@ -8,7 +8,7 @@ R-NONE      the solve root returns the solver's None before touching values or d
 R-OPTIONS   every string-option dispatch is closed by an else that always raises
 """
 import ast
-from ..model import AnalysisError, src, loc, call_name, dotted, qualname, norm_stmt, is_const
+from ..model import AnalysisError, src, loc, call_name, dotted, qualname, norm_stmt, is_const, params_of
 from .. import flow
 from . import common
 
@@ -49,79 +49,33 @@ def _is_exception_class_expr(t):
 
 
 # ---------------------------------------------------------------------------------------------------
-class _Outcome(Exception):
-    pass
+def _accessor_paths(fn, facts, loop_mode="once"):
+    """Paths of an accessor under boolean facts on canonical atoms (aliases of locals resolved)."""
+    from ..absint import PathEval, bool_decider
+
+    def atom(t):
+        c = _canon_test(t)
+        if c in facts:
+            return facts[c]
+        if c.startswith("not ") and c[4:] in facts:
+            return not facts[c[4:]]
+        return None
+    return PathEval(fn, bool_decider(atom), loop_mode=loop_mode).run()
 
 
 def _abstract_outcomes(fn, facts):
-    """Outcomes ('raise', type) / ('return', text) of fn when boolean facts {expr text: bool} hold.
-    Tests that cannot be decided are explored both ways; loops are entered once and skipped once."""
+    """[(kind, text, node)] kept for the rules below: kind in raise / return / handler."""
     outs = []
-
-    def ev(test):
-        t = _canon_test(test)
-        if t in facts:
-            return facts[t]
-        if t.startswith("not ") and t[4:] in facts:
-            return not facts[t[4:]]
-        if isinstance(test, ast.UnaryOp) and isinstance(test.op, ast.Not):
-            v = ev(test.operand)
-            return None if v is None else (not v)
-        if isinstance(test, ast.BoolOp):
-            vals = [ev(v) for v in test.values]
-            if isinstance(test.op, ast.And):
-                if any(v is False for v in vals):
-                    return False
-                return True if all(v is True for v in vals) else None
-            if any(v is True for v in vals):
-                return True
-            return False if all(v is False for v in vals) else None
-        if isinstance(test, ast.Compare) and len(test.ops) == 1 and isinstance(test.ops[0], (ast.IsNot, ast.NotEq)):
-            t2 = " ".join(src(ast.Compare(left=test.left, ops=[ast.Is() if isinstance(test.ops[0], ast.IsNot) else ast.Eq()],
-                                          comparators=test.comparators)).split())
-            if t2 in facts:
-                return not facts[t2]
-        return None
-
-    def run(stmts, depth=0):
-        """returns True when control may fall through"""
-        for i, s in enumerate(stmts):
-            if isinstance(s, ast.Raise):
-                outs.append(("raise", _exc_name(s), s))
-                return False
-            if isinstance(s, ast.Return):
-                outs.append(("return", src(s.value) if s.value is not None else "None", s))
-                return False
-            if isinstance(s, ast.If):
-                v = ev(s.test)
-                falls = False
-                if v is not False:
-                    falls = run(s.body, depth + 1) or falls
-                if v is not True:
-                    falls = (run(s.orelse, depth + 1) if s.orelse else True) or falls
-                if not falls:
-                    return False
-                continue
-            if isinstance(s, (ast.For, ast.While)):
-                run(s.body, depth + 1)
-                continue
-            if isinstance(s, ast.Try):
-                f1 = run(s.body, depth + 1)
-                f2 = False
-                for h in s.handlers:
-                    outs.append(("handler", src(h.type) if h.type is not None else "", h))
-                    f2 = run(h.body, depth + 1) or f2
-                if not (f1 or f2):
-                    return False
-                continue
-            if isinstance(s, ast.With):
-                if not run(s.body, depth + 1):
-                    return False
-                continue
-        return True
-
-    if run(fn.body):
-        outs.append(("return", "None", None))
+    for p in _accessor_paths(fn, facts, loop_mode="both"):
+        for ev in p.trace:
+            if isinstance(ev, tuple) and ev[0] == "handler":
+                outs.append(("handler", src(ev[1].type) if ev[1].type is not None else "", ev[1]))
+        if p.kind == "raise":
+            outs.append(("raise", p.exc, None))
+        elif p.kind == "return":
+            outs.append(("return", p.value_text if p.value is not None else "None", None))
+        else:
+            outs.append(("return", "None", None))
     return outs
 
 
@@ -177,7 +131,7 @@ def r_unsolved(ctx):
             # a derived object never returns a constant / literal
             outs3 = _abstract_outcomes(fn, {"self._is_leaf": False})
             bad = [o for o in outs3 if o[0] == "return" and o[1] != "self._value"]
-            bad_r = [o for o in outs3 if o[0] == "raise" and o[1] not in ("ValueError", "TypeError")]
+            bad_r = [o for o in outs3 if o[0] == "raise" and o[1] not in ("ValueError", "TypeError", "AssertionError")]
             ctx.ob("R-UNSOLVED", key + "::derived", not bad and not bad_r,
                    "a derived object returns its computed value; foreign kinds raise TypeError" if not bad and not bad_r else
                    "derived object can end as %s" % sorted({(o[0], o[1]) for o in bad + bad_r}), where)
@@ -213,9 +167,9 @@ def r_unsolved(ctx):
             ctx.ob("R-UNSOLVED", key + "::re-raise", ok,
                    "the ValueError of an unsolved operand is re-raised as ValueError" if ok else
                    "evaluation of the operands is not (entirely) inside a try whose ValueError handler raises ValueError", where)
-            rets = [r for r in ast.walk(fn) if isinstance(r, ast.Return)]
-            bad = [r for r in rets if src(r.value) != "self._value"]
-            ctx.ob("R-UNSOLVED", key + "::returns", not bad, "returns the computed value" if not bad else "returns %s" % [src(r.value) for r in bad], where)
+            rets = {o[1] for o in _abstract_outcomes(fn, {}) if o[0] == "return"}
+            bad = sorted(r for r in rets if r != "self._value")
+            ctx.ob("R-UNSOLVED", key + "::returns", not bad, "returns the computed value" if not bad else "returns %s" % bad, where)
     ctx.count("accessors", n)
     return n
 
@@ -346,51 +300,85 @@ def _none_when_unsolved(fn, expr):
 
 
 # ---------------------------------------------------------------------------------------------------
+def option_subjects(fn):
+    """Subjects of string-option tests in fn: parameters, and `<parameter>.equality_or_inequality`-like attributes of parameters."""
+    from ..model import params_of
+    ps = set(params_of(fn))
+    subj = {}
+    for t in ast.walk(fn):
+        cands = []
+        if isinstance(t, ast.Compare) and len(t.ops) == 1 and isinstance(t.ops[0], (ast.Eq, ast.NotEq, ast.In, ast.NotIn)):
+            sides = [t.left, t.comparators[0]]
+            if any(isinstance(x, ast.Constant) and isinstance(x.value, str) for x in sides) or \
+                    any(isinstance(x, (ast.Tuple, ast.List, ast.Set)) and x.elts and all(isinstance(e, ast.Constant) and isinstance(e.value, str) for e in x.elts) for x in sides):
+                cands = [x for x in sides if isinstance(x, (ast.Name, ast.Attribute))]
+        if isinstance(t, ast.Call) and call_name(t) == "startswith" and isinstance(t.func, ast.Attribute) and t.args and isinstance(t.args[0], ast.Constant):
+            cands = [t.func.value]
+        for c in cands:
+            root = c
+            while isinstance(root, ast.Attribute):
+                root = root.value
+            if isinstance(root, ast.Name):
+                txt = " ".join(src(c).split())
+                subj.setdefault(txt, root.id)
+    # resolve single-assignment aliases of a parameter expression:  kind = constraint.equality_or_inequality
+    out = {}
+    for txt, root in subj.items():
+        if root in ps:
+            out[txt] = txt
+        else:
+            defs = [a for a in ast.walk(fn) if isinstance(a, ast.Assign) and len(a.targets) == 1 and dotted(a.targets[0]) == root]
+            if len(defs) == 1 and txt == root:
+                r2 = defs[0].value
+                base = r2
+                while isinstance(base, ast.Attribute):
+                    base = base.value
+                if isinstance(base, ast.Name) and base.id in ps and isinstance(r2, (ast.Name, ast.Attribute)):
+                    out[txt] = " ".join(src(r2).split())
+    return sorted(set(out.values()))
+
+
 def r_options(ctx):
+    """For every string option of every function: a value that is none of the literals the code compares it with reaches a raise on every path
+    that tests it (the dispatch is closed), whatever the other tests do."""
+    from ..absint import option_outcomes, literal_test, string_literals_compared, bool_decider
     n = 0
     for fn in ctx.repo.all_functions():
-        seen = set()
-        for s in flow.stmts_of(fn, ast.If):
-            if id(s) in seen:
-                continue
-            arms, orelse = flow.closed_chain(s)
-            cur = s
-            while True:
-                seen.add(id(cur))
-                if len(cur.orelse) == 1 and isinstance(cur.orelse[0], ast.If):
-                    cur = cur.orelse[0]
-                else:
-                    break
-            subj = [_string_option_subject(t) for t, _ in arms]
-            if len(arms) < 2 or any(x is None for x in subj) or len(set(subj)) != 1:
+        for subject in option_subjects(fn):
+            lits, names = string_literals_compared(fn, subject)
+            plain = {l for l in lits if not l.endswith("*")}
+            if len(lits) < 2:
                 continue
             n += 1
-            closed = bool(orelse) and flow.always_raises(orelse)
-            ctx.ob("R-OPTIONS", "%s::%s::dispatch on %s" % (fn._module.rel, qualname(fn), subj[0]), closed,
-                   "closed by an else that always raises" if closed else
-                   "string dispatch on `%s` has no raising else: an invalid option value is silently accepted" % subj[0], loc(fn, s))
-            ctx.sample({"rule": "R-OPTIONS", "function": qualname(fn), "subject": subj[0], "literals": [_lit(t) for t, _ in arms]})
+
+            def mk(value):
+                def atom(t):
+                    r = literal_test(t, subject, value)
+                    if r is not None:
+                        return r
+                    # truthiness of the option itself
+                    if " ".join(src(t).split()) == subject:
+                        return bool(value)
+                    return None
+                return bool_decider(atom)
+
+            unknown = "\0none-of-the-documented-values"
+            outs = option_outcomes(fn.body, mk(unknown))
+            leak = sorted(k for (k, touched) in outs if touched and k in ("next", "return"))
+            ok = not leak
+            key = "%s::%s::dispatch on %s" % (fn._module.rel, qualname(fn), subject)
+            ctx.ob("R-OPTIONS", key, ok,
+                   "a value other than %s reaches a raise on every path that tests the option" % sorted(lits) if ok else
+                   "a value of `%s` other than %s is tested and the function still completes normally (%s): an invalid option value is silently accepted"
+                   % (subject, sorted(lits), ", ".join(leak)), loc(fn, fn))
+            # every documented literal is really accepted (some path completes normally)
+            for l in sorted(plain):
+                o2 = option_outcomes(fn.body, mk(l))
+                if not any(k in ("next", "return") for (k, _) in o2):
+                    ctx.ob("R-OPTIONS", key + "::%s" % l, False, "the documented value %r raises on every path" % l, loc(fn, fn))
+            ctx.sample({"rule": "R-OPTIONS", "function": qualname(fn), "subject": subject, "literals": sorted(lits)})
     ctx.count("string-option dispatches", n)
     return n
-
-
-def _string_option_subject(test):
-    if isinstance(test, ast.Compare) and len(test.ops) == 1 and isinstance(test.ops[0], ast.Eq):
-        a, b = test.left, test.comparators[0]
-        if isinstance(b, ast.Constant) and isinstance(b.value, str) and isinstance(a, (ast.Name, ast.Attribute)):
-            return src(a)
-        if isinstance(a, ast.Constant) and isinstance(a.value, str) and isinstance(b, (ast.Name, ast.Attribute)):
-            return src(b)
-    if isinstance(test, ast.Call) and call_name(test) == "startswith" and test.args and isinstance(test.args[0], ast.Constant):
-        return src(test.func.value)
-    return None
-
-
-def _lit(test):
-    for n in ast.walk(test):
-        if isinstance(n, ast.Constant) and isinstance(n.value, str):
-            return n.value
-    return None
 
 
 def run(ctx):
